@@ -16,7 +16,38 @@ def n_items(X, direction):
     return X.shape[0] if direction == "sample" else X.shape[1]
 
 
+def native(req):
+    """Requests drawn as NumPy integers are stored in the case as 0-d arrays (the codec keeps their dtype): hand the estimator a
+    NumPy scalar."""
+    if isinstance(req, np.ndarray) and req.ndim == 0:
+        return req.dtype.type(req)
+    return req
+
+
+def narrow(draw, X, y, params):
+    """Post-processing of a 'narrowint' case: the targets become integers of a narrow type too and params["_dtypes"] records the
+    dtypes in which X and y are handed to fit (see make)."""
+    if y is not None:
+        lo, hi = gen.NARROW_RANGES[draw(st.sampled_from(["int8", "uint8"]))]
+        y = gen.rng_of(draw).integers(lo, hi + 1, size=np.shape(y)).astype(float)
+    params["_dtypes"] = [gen.narrow_dtype(X), None if y is None else gen.narrow_dtype(y)]
+    return y
+
+
 def make(cls, direction, **params):
+    if "n_to_select" in params:
+        params["n_to_select"] = native(params["n_to_select"])
+    dtypes = params.pop("_dtypes", None)
+    if dtypes is not None:
+        est = make(cls, direction, **params)
+        fit0 = est.fit
+
+        def fit(X, y=None, *a, **kw):
+            X = np.asarray(X).astype(dtypes[0]) if dtypes[0] else X
+            y = np.asarray(y).astype(dtypes[1]) if (y is not None and dtypes[1]) else y
+            return fit0(X, y, *a, **kw)
+        est.fit = fit
+        return est
     if cls == "VoronoiFPS":
         return SS.VoronoiFPS(**params)
     mod = SS if direction == "sample" else FS
@@ -27,7 +58,7 @@ def resolve_request(req, N):
     """Number of selections the code resolves a request to (int(N*f) for a fraction)."""
     if req is None:
         return N // 2
-    if isinstance(req, (int, np.integer)):
+    if isinstance(req, (int, np.integer)) or (isinstance(req, np.ndarray) and req.dtype.kind in "iu"):
         return int(req)
     return int(N * req)
 
@@ -127,7 +158,9 @@ def draw_request(draw, N, minimum=1, forms=("none", "int", "float")):
         return None
     j = draw(st.integers(minimum, N))
     if form == "int":
-        return j
+        # a count is a count whatever integer type carries it
+        t = draw(st.sampled_from(["int", "int", "int", "int32", "int64"]))
+        return j if t == "int" else np.array(j, dtype=t)
     if j == N:
         return 1.0
     return (j + 0.5) / N
